@@ -48,7 +48,7 @@ var CMSMutationClasses = []string{
 	"content_edit", "content_replace", "content_remove", "content_add",
 	"etype_change", "outer_oid_change", "attr_contenttype_change",
 	"certs_drop", "certs_replace", "certs_add",
-	"issuer_change", "serial_change", "serial_sign_edit", "unsigned_attrs_shadow_signed", "digest_attr_rewrite", "digest_attr_rewrite_and_content",
+	"issuer_change", "serial_change", "serial_sign_edit", "unsigned_attrs_shadow_signed", "sig_length_edit", "digest_attr_rewrite", "digest_attr_rewrite_and_content",
 	"sig_flip", "sig_by_other_key", "digestalg_change", "sigalg_change", "null_params_toggle",
 	"second_signer", "outer_strip", "outer_add", "attrs_retag_set", "attrs_remove_all", "attrs_empty",
 	"foreign_content_and_signer", "foreign_content_and_signer", "issuer_string_retag",
@@ -344,6 +344,25 @@ func MutateCMS(t *rapid.T, blob []byte, env MutEnv) ([]byte, string) {
 			s.UnAttrs.Opaque, s.UnAttrs.Content = false, nil
 		} else {
 			s.Node.Children = append(s.Node.Children, unNode)
+		}
+	case "sig_length_edit":
+		// the signature octet string is no longer as long as the modulus: octets in front of a valid signature
+		// (zero or not), the first octet dropped, an octet appended
+		if s.Sig == nil || len(s.Sig.Content) < 2 {
+			return nil, na
+		}
+		c := s.Sig.Content
+		switch rapid.IntRange(0, 4).Draw(t, "how") {
+		case 0:
+			s.Sig.Content = append([]byte{byte(rapid.IntRange(1, 255).Draw(t, "front"))}, c...)
+		case 1:
+			s.Sig.Content = append([]byte{0xde, 0xad, 0xbe, 0xef}, c...)
+		case 2:
+			s.Sig.Content = append([]byte{0x00}, c...)
+		case 3:
+			s.Sig.Content = append([]byte{}, c[1:]...)
+		default:
+			s.Sig.Content = append(append([]byte{}, c...), 0x00)
 		}
 	case "sig_flip":
 		if s.Sig == nil || len(s.Sig.Content) == 0 {
